@@ -47,3 +47,4 @@ func vClone(x any) any { return x }
 func vCopyInto(dst, src any) {}
 func vNewLike(p any) any { return p }
 func vSetenvProc(proc int, k, v string) {}
+func vLiveGoroutines() int { return 0 }
